@@ -147,6 +147,48 @@ func genSpec(seed uint64, tier string, idx int) *Spec {
 		}
 	}
 	sp.ContDelayUs = [2]int{r.Range(800, 3000), r.Range(800, 3000)}
+	if fam == 2 {
+		// a block-level post or deferred check that ALWAYS fails, in a block that is followed by another block: the
+		// uninterrupted run fails the block and the plan there; a recovery must do the same wherever the crash falls
+		// (in particular between the failed group's write and the block's write)
+		sp.Kind = "blkchk"
+		for len(sp.Shape.Blocks) < 2 {
+			sp.Shape.Blocks = append(sp.Shape.Blocks, engine.Block{Conc: 1, Tol: 0, Seqs: [][]int{{0}}})
+		}
+		sp.Shape.G[engine.GBypass] = nil
+		b := r.Intn(len(sp.Shape.Blocks) - 1)
+		g := []int{engine.GDeferred, engine.GDeferred, engine.GPost}[r.Intn(3)]
+		sp.Shape.Blocks[b].G[engine.GBypass] = nil
+		sp.Shape.Blocks[b].G[g] = &engine.Group{Retries: []int{r.Intn(2)}}
+		sp.Shape.Blocks[b].Tol = -1
+		for _, q := range sortedKeys(sp.Shape.Actions()) {
+			var sc, gg, i int
+			isChk := false
+			if strings.HasPrefix(q, "c/") {
+				fmt.Sscanf(q, "c/%d/%d/%d", &sc, &gg, &i)
+				isChk = true
+			}
+			if _, ok := sp.Out[q]; !ok {
+				sp.Out[q] = int(engine.OOk)
+				sp.SleepUs[q] = r.Intn(300)
+			}
+			if isChk && sc <= b && !(sc == b && gg == g) && gg != engine.GBypass {
+				sp.Out[q] = int(engine.OOk) // nothing else fails up to that block
+				delete(sp.OutText, engine.PathHuman(q))
+			}
+			if !isChk {
+				var sb, sq, si int
+				fmt.Sscanf(q, "s/%d/%d/%d", &sb, &sq, &si)
+				if sb <= b {
+					sp.Out[q] = int(engine.OOk)
+					delete(sp.OutText, engine.PathHuman(q))
+				}
+			}
+		}
+		fq := engine.ChkPath(b, g, 0)
+		sp.Out[fq] = int([]engine.Outcome{engine.OPerm, engine.OErr}[r.Intn(2)])
+		sp.OutText[engine.PathHuman(fq)] = outcomeShort[sp.Out[fq]]
+	}
 	if fam == 3 {
 		// overrun: one or two sequence actions never answer within their (15-25 ms) timeout: the ENGINE ends the attempt
 		// and records its own timeout error (not permanent), retries while it may, then fails the action. The write of
@@ -343,16 +385,17 @@ type recObs struct {
 	after    int
 	leak     int
 	dir      string // file-backed vault directory ("" = in memory)
+	cancelUs int    // >= 0: the context given to coercion.New was cancelled this long after New returned; -1: live context
 	resumed  bool
 	finImage *Image
 }
 
 // recoverImage puts img into a fresh vault and opens a new Workstream on it: the real recovery.
-func recoverImage(base *PlanRun, img *workflow.Plan, nonce string, snap bool, dir string) recObs {
+func recoverImage(base *PlanRun, img *workflow.Plan, nonce string, snap bool, dir string, cancelUs int) recObs {
 	ctx := context.Background()
 	set := plugs()
 	run := base.observer(nonce)
-	o := recObs{run: run, dir: dir}
+	o := recObs{run: run, dir: dir, cancelUs: cancelUs}
 	setNonce(img, nonce)
 	var inner *sqlite.Vault
 	var err error
@@ -385,10 +428,21 @@ func recoverStore(inner *sqlite.Vault, run *PlanRun, snap bool, o recObs) recObs
 	o.resumed = rb.State != nil && rb.State.Status == workflow.Running
 	v := &obsVault{Vault: inner, run: run, snap: snap}
 	register(run)
-	ws, err := coercion.New(ctx, set.Reg, v)
+	// the context given to coercion.New is the caller's: it may be cancelled right after New returned (a start-up
+	// routine with a deadline); execution must not depend on it. Wait / Plan keep a live context.
+	newCtx, cancelNew := context.WithCancel(ctx)
+	defer cancelNew()
+	ws, err := coercion.New(newCtx, set.Reg, v)
 	if err != nil {
 		o.err = "coercion.New: " + err.Error()
 		return o
+	}
+	if o.cancelUs >= 0 {
+		d := time.Duration(o.cancelUs) * time.Microsecond
+		go func() {
+			time.Sleep(d)
+			cancelNew()
+		}()
 	}
 	wctx, cancel := context.WithTimeout(ctx, recoverDeadline)
 	fin, err := ws.Wait(wctx, run.ID)
@@ -477,6 +531,7 @@ func recCase(sp *Spec, seed uint64, id string, level int, k, j int, verdict int,
 	}
 	d["events"], d["hang"], d["level"], d["crash_write"], d["writes_of_run"] = len(o.evs), o.hang, level, k, writes
 	d["resumed"], d["plugin_calls"], d["file_backed"] = o.resumed, starts, o.dir != ""
+	d["new_ctx_cancelled_after_us"] = o.cancelUs
 	d["running_left"] = countRunning(o.finImage)
 	d["after_release"], d["leak"] = o.after, o.leak
 	if o.image != nil {
@@ -585,7 +640,11 @@ func childPlan(idx, from int, tier string, doublePct, doubleSmall, filePct int, 
 			os.RemoveAll(dir)
 		}
 		nonce := fmt.Sprintf("%s-k%d-a%d", o.run.Nonce, k, attempt)
-		ro := recoverImage(o.run, img, nonce, double, dir)
+		cancelUs := -1
+		if rc := rk.Fork(3); rc.Chance(0.5) {
+			cancelUs = rc.Intn(3001)
+		}
+		ro := recoverImage(o.run, img, nonce, double, dir, cancelUs)
 		c := recCase(sp, seed, id, 1, k, 0, verdict, ro, len(o.snaps))
 		if dir != "" && !ro.hang {
 			os.RemoveAll(dir)
@@ -605,7 +664,11 @@ func childPlan(idx, from int, tier string, doublePct, doubleSmall, filePct int, 
 			}
 			id2 := fmt.Sprintf("rec-%d-k%d-j%d", idx, k, j)
 			nonce2 := fmt.Sprintf("%s-j%d", nonce, j)
-			r2 := recoverImage(o.run, img2, nonce2, false, "")
+			cancel2 := -1
+			if rc := rk.Fork(uint64(100 + j)); rc.Chance(0.5) {
+				cancel2 = rc.Intn(3001)
+			}
+			r2 := recoverImage(o.run, img2, nonce2, false, "", cancel2)
 			c2 := recCase(sp, seed, id2, 2, k, j, verdict, r2, len(ro.snaps))
 			if r2.hang {
 				hung(id2, img2, nonce2, c2)
@@ -665,7 +728,7 @@ func childRerun(idx int, tier, dir, nonce, id string, level, k int, out string, 
 		nonce = nonceOf(rb)
 	}
 	run := base.observer(nonce)
-	ro := recoverStore(inner, run, false, recObs{run: run, dir: dir})
+	ro := recoverStore(inner, run, false, recObs{run: run, dir: dir, cancelUs: -1})
 	c := recCase(sp, seed, id, level, k, 0, verdict, ro, 0)
 	c.Dist["fresh_process"] = true
 	w.Put(c)
